@@ -614,6 +614,17 @@ class Program:
             return self.resolve_dotted('.'.join([tgt] + parts[1:]))
         return self.resolve_in_module(m, parts)
 
+    def runtime_memos(self):
+        """{(module name, variable)}: module-level containers created empty
+        and written by at least one function (see rules/memo.py)."""
+        if getattr(self, '_runtime_memos', None) is None:
+            from .rules.memo import runtime_memo_names
+            self._runtime_memos = set()
+            for m in self.modules.values():
+                for nm in runtime_memo_names(m.tree):
+                    self._runtime_memos.add((m.name, nm))
+        return self._runtime_memos
+
     def digests(self):
         return {m.relpath: m.sha256 for m in self.modules.values()}
 
